@@ -38,6 +38,10 @@ type Family struct {
 
 var families = map[string]*Family{}
 
+// stopRun: a family sets it when going on costs much and can add nothing to the verdict (the race family after several
+// cases that blocked for the whole watchdog budget: each further one costs 30 s).  The cases run so far are reported.
+var stopRun bool
+
 func register(f *Family) { families[f.Name] = f }
 
 func caseRng(seed int64, idx int) *rand.Rand {
@@ -91,6 +95,10 @@ func main() {
 		c := f.Run(caseRng(*seed, i), i, *tier)
 		c.ID = fmt.Sprintf("%s/%d/%d", f.Name, *seed, i)
 		cases = append(cases, c)
+		if stopRun && *only < 0 {
+			fmt.Fprintf(os.Stderr, "stopping after case %d: enough cases blocked\n", i)
+			break
+		}
 	}
 	res := map[string]any{"family": f.Name, "seed": *seed, "tier": *tier, "cases": cases}
 	data, err := json.Marshal(res)
